@@ -6194,7 +6194,10 @@ class NetCDFRead(IORead):
             # without reading the data, so set it to None for now.
             dtype = None
 
-        if dtype is not None and unpacked_dtype is not False:
+        if dtype is not None and unpacked_dtype is not False and g["unpack"]:
+            # The data type after unpacking. (When the data are not
+            # to be unpacked, their data type is that of the netCDF
+            # variable.)
             dtype = np.result_type(dtype, unpacked_dtype)
 
         ndim = variable.ndim
